@@ -470,7 +470,7 @@ func (c13) Run(c core.Case) core.Outcome {
 				want := refWalkCalls(m, start, bbset)
 				if op.multi > 0 {
 					// each start is its own section: the walk starts afresh
-					want = append(want, refWalkCalls(m, epRef{cs.Dist[op.multi-1], c13EpName(op.multi-1)}, bbset)...)
+					want = append(want, refWalkCalls(m, epRef{cs.Dist[op.multi-1], c13EpName(op.multi - 1)}, bbset)...)
 				}
 				if fmt.Sprint(arrows) != fmt.Sprint(want) {
 					kind := "arrows-differ"
